@@ -65,7 +65,7 @@ func (s *Sim) CheckRewardProportionality(rt *rapid.T) {
 	for i, p := range positions {
 		for _, q := range positions[i+1:] {
 			rp, rq := s.Known[p.PositionId], s.Known[q.PositionId]
-			if rp.Mods != 0 || rq.Mods != 0 || rp.Gen != rq.Gen || p.LowerTick != q.LowerTick || p.UpperTick != q.UpperTick || !p.JoinTime.Equal(q.JoinTime) {
+			if rp.Mods != 0 || rq.Mods != 0 || rp.Gen != rq.Gen || p.LowerTick != q.LowerTick || p.UpperTick != q.UpperTick || !rp.Join.Equal(rq.Join) {
 				continue
 			}
 			cp, cq := cl[p.PositionId], cl[q.PositionId]
